@@ -178,6 +178,8 @@ def r5_move_list(ctx):
                 tr = ex.operand(a)
                 if tr[0] == "agg" and tr[1] == "closure":
                     closures.setdefault(short, []).append(tr[2])
+                elif tr[0] == "fn" and short in ("map", "map_while", "filter_map", "flat_map"):
+                    closures.setdefault(short + ":fn", []).append(tr[1])
     last = [c.rsplit("::", 1)[-1] for c in calls]
     splits = [c for c in last if c in SPLITS]
     if len(splits) != 1:
@@ -205,6 +207,31 @@ def r5_move_list(ctx):
             if harmless and closures.get("filter"):
                 continue
         bad.append(c)
+    # a token is handed on as it was transmitted: what `map` applies to it is a conversion (to_string, String::from,
+    # UciMove::from_str ...), not a function of the repository that compares it with literals and substitutes others
+    rewriting = []
+    for ck in closures.get("map", []) + closures.get("map:fn", []):
+        keys = [ck] + [k for k in prog.fns if k.startswith(ck + "::")]
+        todo, seen_k = list(keys), set()
+        while todo:
+            k = todo.pop()
+            if k in seen_k or k not in prog.fns:
+                continue
+            seen_k.add(k)
+            g = prog.fns[k]
+            for bb in g["blocks"]:
+                tt = bb["term"]
+                if tt["k"] == "call" and (tt["callee"].get("key") or "").startswith("inkayaku_lichess_api::"):
+                    todo.append(tt["callee"]["key"])
+        lits = set()
+        for k in seen_k:
+            lits |= {l for l in string_consts_of(prog, k) if 3 < len(l) < 7 and l.isalnum()}
+        if lits and any(k.startswith("inkayaku_lichess_api::") for k in seen_k):
+            rewriting.append((ck, sorted(lits)))
+    if "map" in on_tokens or closures.get("map:fn"):
+        ctx.ob(rid, "tokens-handed-on-unchanged", not rewriting,
+               "" if not rewriting else "from_space_sv maps every token through %s, which compares it with / substitutes the literals %s: a transmitted move that happens to have one of these spellings (a rook or queen move e1h1) is decoded as another move" % (rewriting[0][0].rsplit("::", 1)[-1], rewriting[0][1][:8]),
+               "%s:%d" % (f["file"], f["line"]))
     ctx.ob(rid, "no-token-dropped", not bad, "" if not bad else "from_space_sv applies %s to the token stream: tokens that do not pass (for example five-character promotions such as h7g8q under a length test) silently vanish from the decoded move list" % bad,
            "%s:%d" % (f["file"], f["line"]))
     # the `moves` fields are decoded through it: the deserialize_with shim calls from_space_sv
